@@ -83,9 +83,11 @@ def op_strategy(kind, none_p=True, bulk_empty=True, heavy=True, only=None):
         (2, "set_edge_attributes", setattr_modes(ex).map(lambda t: ["set_edge_attributes"] + list(t))),
         (3, "double_edge_swap", st.tuples(st.just("double_edge_swap"), nm, nm, ex, ex).map(list)),
         (1, "double_edge_swap", st.tuples(st.just("double_edge_swap"), nm, st.just(["same"]), ex, ex).map(list)),  # one node named twice
+        (1, "double_edge_swap", st.tuples(st.just("double_edge_swap"), nm, nm, ex, st.just(["same-edge"])).map(list)),  # one edge named twice
         (2, "random_edge_shuffle", st.tuples(st.just("random_edge_shuffle"), ex, ex, st.integers(0, 10**6)).map(list)),
         (1, "random_edge_shuffle", st.tuples(st.just("random_edge_shuffle"), st.none(), st.none(), st.integers(0, 10**6)).map(list)),
         (4, "add_node_to_edge", st.tuples(st.just("add_node_to_edge"), e_or_none, n_or_none).map(list)),
+        (3, "add_node_to_edge", st.tuples(st.just("add_node_to_edge"), ex, n_or_none).map(list)),  # mostly an existing edge (possibly an emptied one)
         (3, "remove_edge", st.tuples(st.just("remove_edge"), ex).map(list)),
         (4, "remove_edges_from", st.tuples(st.just("remove_edges_from"), nets.eid_removal_list).map(list)),
         (4, "remove_node_from_edge", st.tuples(st.just("remove_node_from_edge"), ex, nm, b).map(list)),
@@ -210,7 +212,8 @@ def concretise(H, op):
         for it in op[2]:
             it[0] = r(it[0])
     elif name == "double_edge_swap":
-        op[3], op[4] = r(op[3]), r(op[4])
+        op[3] = r(op[3])
+        op[4] = op[3] if op[4] == ["same-edge"] else r(op[4])
         same = op[2] == ["same"]  # the same node named twice (picked among the common members of the two edges when there are any)
         if same:
             try:
@@ -273,11 +276,15 @@ def apply_real(H, op):
     elif name == "remove_node":
         H.remove_node(op[1], strong=op[2], remove_empty=op[3])
     elif name == "remove_nodes_from":
-        H.remove_nodes_from(list(op[1]), strong=op[2], remove_empty=op[3])
+        H.remove_nodes_from(nets.bunch(op[1]), strong=op[2], remove_empty=op[3])
     elif name == "set_node_attributes":
         H.set_node_attributes(setattr_arg(op), name=op[3])
     elif name == "add_edge":
-        H.add_edge(container(op[2], op[1]), idx=op[3], **copy.deepcopy(op[4]))
+        c = container(op[2], op[1])
+        try:
+            H.add_edge(c, idx=op[3], **copy.deepcopy(op[4]))
+        finally:
+            nets.scribble_after(c)
     elif name == "add_edges_from":
         H.add_edges_from(bulk_arg(op), **copy.deepcopy(op[3]))
     elif name == "add_weighted_edges_from":
@@ -297,7 +304,7 @@ def apply_real(H, op):
     elif name == "remove_edge":
         H.remove_edge(op[1])
     elif name == "remove_edges_from":
-        H.remove_edges_from(list(op[1]))
+        H.remove_edges_from(nets.bunch(op[1]))
     elif name == "remove_node_from_edge":
         H.remove_node_from_edge(op[1], op[2], remove_empty=op[3])
     elif name == "update":
